@@ -1,4 +1,141 @@
-(** C04 — property theorems (statements + [exact] + [Print Assumptions] only). *)
+(** C04 — the iterators: property theorems (statements + [exact] + [Print Assumptions] only).
+
+    - [C04_merging_refines]: the merging iterator ([MergingIterator]) over sorted children whose
+      (user key, sequence) pairs are globally distinct is a sorted-list cursor over the merged
+      entries, for every script that respects the iterator's contract (no [next] / [prev] on an
+      invalid iterator) and for arbitrary initial positions of the children;
+    - [C04_dbiter_refines]: the database iterator ([DatabaseIterator]) over such a merging
+      iterator is a sorted-map cursor over the pairs visible at its sequence number, for every
+      script (never a panic, never out of fuel);
+    - [C04_db_iterator]: the same for the iterator handed out by any well-formed LSM state. *)
 From RainVerif Require Import Params.
-From RainVerif.model Require Import Bytes Key Version Lsm LsmSpec DbSpec.
+From RainVerif.model Require Import Bytes Key Block Table TableSpec Version Lsm LsmSpec DbSpec Cursor.
+From RainVerif.proofs Require Import CursorProofs.
+From RainVerif.proofs Require GetProofs.
 Open Scope N_scope.
+
+(** the two hypotheses, spelled out *)
+Example C04_keys_unique_def : forall ls,
+  keys_unique ls = NoDup (map (fun e => (ik_user (fst e), ik_seq (fst e))) (concat ls)).
+Proof. reflexivity. Qed.
+
+Example C04_admissible_def : forall M p o r,
+  admissible M r = admissible_from M None r /\
+  admissible_from M p [] = True /\
+  admissible_from M p (o :: r) =
+    (match o with CNext | CPrev => p <> None | _ => True end
+     /\ admissible_from M (lc_step M p o) r).
+Proof. intros. repeat split. Qed.
+
+Theorem C04_merging_refines :
+  forall (ls : list (list entry)) (poss : list (option nat)) ops,
+    length poss = length ls ->
+    Forall (fun l => sorted_entries l = true) ls ->
+    keys_unique ls ->
+    admissible (sort_entries (concat ls)) ops ->
+    m_run (m_new (combine ls poss)) ops = (lc_run (sort_entries (concat ls)) None ops, true).
+Proof. exact merging_refines_proof. Qed.
+Print Assumptions C04_merging_refines.
+
+Theorem C04_dbiter_refines :
+  forall (ls : list (list entry)) (poss : list (option nat)) (q : N) (ops : list iop),
+    length poss = length ls ->
+    Forall (fun l => sorted_entries l = true) ls ->
+    keys_unique ls ->
+    d_run (d_new (combine ls poss) q) ops
+    = (fst (cursor_run (contents (concat ls) q) None ops), true).
+Proof. exact dbiter_refines_proof. Qed.
+Print Assumptions C04_dbiter_refines.
+
+(** the same against any sorted association list whose lookups are [visible] *)
+Theorem C04_dbiter_refines_gen :
+  forall (cs : list child) (q : N) (V : list kv) (ops : list iop),
+    Forall (fun l => sorted_entries l = true) (map fst cs) ->
+    keys_unique (map fst cs) ->
+    GetProofs.map_sorted V ->
+    (forall k, map_get k V = visible (concat (map fst cs)) q k) ->
+    d_run (d_new cs q) ops = (fst (cursor_run V None ops), true).
+Proof. exact dbiter_refines_gen. Qed.
+Print Assumptions C04_dbiter_refines_gen.
+
+Theorem C04_db_iterator :
+  forall (s : lsm) (q : N) (ops : list iop),
+    lsm_wf_b s = true ->
+    d_run (d_new (iter_children s) q) ops
+    = (fst (cursor_run (contents (all_entries s) q) None ops), true).
+Proof. exact db_iterator_proof. Qed.
+Print Assumptions C04_db_iterator.
+
+(** * Non-vacuity *)
+
+(** three children with several versions per key, runs of tombstones and entries newer than the
+    snapshot; a script of 30 operations with many direction reversals *)
+Example C04_example_hyps :
+  length ex_poss = length ex_children
+  /\ Forall (fun l => sorted_entries l = true) ex_children
+  /\ keys_unique ex_children
+  /\ length ex_script = 30%nat /\ length ex_mscript = 30%nat
+  /\ admissible (sort_entries (concat ex_children)) ex_mscript.
+Proof.
+  split; [reflexivity|]. split; [repeat constructor|].
+  split; [apply CompactProofs.keys_nodupb_sound; vm_compute; reflexivity|].
+  split; [reflexivity|]. split; [reflexivity|].
+  vm_compute. repeat split; discriminate.
+Qed.
+
+Example C04_example_contents :
+  contents (concat ex_children) 25 = [([97], [1]); ([98], [2]); ([101], [4]); ([102], [9])]
+  /\ contents (concat ex_children) 10 = [([97], [6]); ([98], [7]); ([99], [8])].
+Proof. vm_compute. split; reflexivity. Qed.
+
+Example C04_example_dbiter_25 :
+  d_run (d_new (combine ex_children ex_poss) 25) ex_script
+  = (fst (cursor_run (contents (concat ex_children) 25) None ex_script), true)
+  /\ fst (d_run (d_new (combine ex_children ex_poss) 25) ex_script)
+     = [OAt ([97], [1]); OAt ([98], [2]); OAt ([101], [4]); OAt ([98], [2]); OAt ([97], [1]);
+        OAt ([98], [2]); OAt ([102], [9]); OAt ([101], [4]); OAt ([102], [9]); OInvalid;
+        OAt ([101], [4]); OAt ([98], [2]); OAt ([101], [4]); OAt ([98], [2]); OAt ([101], [4]);
+        OAt ([98], [2]); OAt ([97], [1]); OInvalid; OAt ([97], [1]); OInvalid;
+        OAt ([102], [9]); OInvalid; OInvalid; OAt ([102], [9]); OAt ([101], [4]);
+        OAt ([98], [2]); OAt ([101], [4]); OAt ([98], [2]); OAt ([101], [4]); OAt ([102], [9])].
+Proof. vm_compute. split; reflexivity. Qed.
+
+Example C04_example_dbiter_10 :
+  d_run (d_new (combine ex_children ex_poss) 10) ex_script
+  = (fst (cursor_run (contents (concat ex_children) 10) None ex_script), true).
+Proof. vm_compute. reflexivity. Qed.
+
+Example C04_example_merging :
+  m_run (m_new (combine ex_children ex_poss)) ex_mscript
+  = (lc_run (sort_entries (concat ex_children)) None ex_mscript, true).
+Proof. vm_compute. reflexivity. Qed.
+
+(** the iterator of a three-level LSM state (memtable, immutable memtable, two level-0 files,
+    two deeper levels) *)
+Example C04_example_state :
+  lsm_wf_b GetProofs.ex_state = true
+  /\ length (iter_children GetProofs.ex_state) = 6%nat
+  /\ d_run (d_new (iter_children GetProofs.ex_state) 12) ex_script
+     = (fst (cursor_run (contents (all_entries GetProofs.ex_state) 12) None ex_script), true)
+  /\ contents (all_entries GetProofs.ex_state) 12
+     = [([97], [1; 12]); ([98], [2; 6]); ([99], [3; 11])].
+Proof. vm_compute. repeat split; reflexivity. Qed.
+
+(** * Sensitivity: global uniqueness of (user key, sequence) is needed *)
+
+(** two children holding the same (user key, sequence): after [first; next] the merging iterator
+    is on the second copy; [prev] then moves both children off the front, whereas a list cursor
+    over the merged entries steps back to the first copy *)
+Example C04_keys_unique_needed :
+  exists ls poss ops,
+    length poss = length ls
+    /\ Forall (fun l => sorted_entries l = true) ls
+    /\ admissible (sort_entries (concat ls)) ops
+    /\ m_run (m_new (combine ls poss)) ops
+       <> (lc_run (sort_entries (concat ls)) None ops, true).
+Proof.
+  exists dup_children, [None; None], [CFirst; CNext; CPrev].
+  split; [reflexivity|]. split; [repeat constructor|].
+  split; [vm_compute; repeat split; discriminate|].
+  vm_compute. discriminate.
+Qed.
